@@ -318,8 +318,9 @@ func c18RunOne(rng *rand.Rand, cfg c18Cfg) (ex c18Exec, key, detail string) {
 		MaxConnWaitTimeout:  cfg.wait,
 		MaxIdleConnDuration: cfg.idleDur,
 	}
-	if !cfg.lifo {
-		hc.ConnPoolStrategy = FIFO
+	hc.ConnPoolStrategy = FIFO
+	if cfg.lifo {
+		hc.ConnPoolStrategy = LIFO
 	}
 	rec.hc = hc
 	VerifHook = rec.hook
